@@ -20,7 +20,7 @@ var intrinsicNames = map[string]bool{
 	"zzIteInt": true, "zzIteInt64": true, "zzIteByte": true, "zzIteBool": true, "zzIteUint16": true, "zzIteStr": true,
 	"zzParam": true, "zzSymbolic": true, "zzDecStr": true, "zzWriteLocked": true, "zzLockDepth": true,
 	"zzLog": true, "zzFail": true, "zzConcretize": true, "zzConcStr": true, "zzGoroutines": true,
-	"zzIsConst": true, "zzStrEq": true, "zzDigest": true, "zzSettleMs": true,
+	"zzIsConst": true, "zzStrEq": true, "zzDigest": true, "zzSettleMs": true, "zzTry": true, "zzTrapFatal": true,
 }
 
 func (p *Path) isIntrinsic(fn *ssa.Function) bool { return p.eng.meta(fn).intrinsic }
@@ -191,6 +191,8 @@ func (p *Path) intrinsic(g *G, fr *Frame, fn *ssa.Function, args []Value) (Value
 			p.internal("zzDigest of a non-constant value")
 		}
 		p.reached["digest:"+p.concStr(args[0], "digest name")+"="+strconv.FormatUint(t.val, 10)] = true
+		return nil, stNext
+	case "zzTrapFatal":
 		return nil, stNext
 	case "zzIsConst":
 		t, ok := args[0].(*Term)
